@@ -26,8 +26,8 @@
                                (deterministic_probes.probe_vectors; it has no query method).
      footprint comp p          the classes of the with-blocks of p and their documented composites. *)
 From Coq Require Import List String ZArith Bool.
-From GPV Require Import Models.C20_ir Models.C20_check Models.C20_run Gen.Settings_gen
-                        Proofs.C20_scoped Proofs.C20_inner Proofs.C20_gen.
+From GPV Require Import Models.C20_ir Models.C20_check Models.C20_request Models.C20_run Gen.Settings_gen
+                        Proofs.C20_scoped Proofs.C20_inner Proofs.C20_request Proofs.C20_gen Proofs.C20_reqgen.
 Import ListNotations.
 Open Scope string_scope.
 
@@ -80,16 +80,133 @@ Proof.
 Qed.
 Print Assumptions c20_checked0_is_checked_minus_probes.
 
-(* INNERMOST WINS -- partial.  Proved (all blocks, arguments, bodies, stores): whatever a block shows at
-   the start of its body (s0) is what every later observation in its body shows, for every class that
-   has no inner block in the body; inner blocks put it back when they end (c20_scoped applied to them).
-   So at every point the visible value of a class is the one established by the innermost enclosing
-   block of that class (or a composite of it).
-   NOT proved: that s0 shows "what the arguments request" (state=..., value=..., per-dtype values that are
-   not None, num_probe_vectors=..., the composites' members).  That half needs a specification of every
-   constructor's arguments; it is TESTED on every run by the driver (real classes vs the reference
-   semantics, and vs this model). *)
-Theorem c20_innermost_wins_partial :
+(* INNERMOST WINS.  Vocabulary (Models/C20_request.v):
+     doc_requested c           hand-written documentation table: the public queries (class, method, arguments)
+                               a block `with c(args):` determines, each with a decision tree over the block's
+                               arguments ("omitted?", "None?") whose leaves are an argument, a constant, or a
+                               value shown OUTSIDE the block.  Flag classes: on() = state (default True; None =
+                               back to the class default), off() = not on(), is_default() = state is None;
+                               value classes: value() = the argument; per-dtype classes: value(dtype) = that
+                               dtype's argument if supplied and not None, else the outer value; fast_pred_var
+                               also num_probe_vectors() = the argument (default 1); fast_computations /
+                               linalg_dtypes: the queries of their members.
+     requested T args G t      the value of such a tree for the arguments args and the outer store G
+                               (c20_requested_* below spell it out).
+   For EVERY usable class c (context manager nobody inherits from), all arguments, all bodies over checked
+   classes, every store G (any nesting context: G is whatever the enclosing blocks established): either the
+   header does not complete (nothing is observed; by c20_failed_header_writes_nothing nothing changed), or
+     - at the first point of the body every documented query of the block returns EXACTLY what the
+       arguments request, and
+     - it keeps returning that at every later point of the body, for every query whose class has no
+       block (own or composite) in the body; inner blocks of that class show their own requested values
+       (this theorem, applied to them) and put the outer ones back when they end (c20_scoped_queries).
+   The per-class obligation behind it (constructor + __enter__ of the REGENERATED source establish the
+   documented values, for both answers to every question the code asks; the queries read nothing but
+   what the block wrote) is re-computed on every run: Proofs/C20_reqgen.v req_table. *)
+Theorem c20_innermost_wins :
+  forall c args body G G' o tr,
+    In c (usable gen_table) ->
+    (forall k, In k (prog_classes body) -> In k checked) ->
+    run gen_table (PWith c args (PSeq PObserve body)) G = (G', o, tr) ->
+    (enters gen_table c args G = false /\ tr = []) \/
+    exists s0 tr', tr = s0 :: tr' /\
+      (forall k m qa t, In ((k, m, qa), t) (doc_requested c) ->
+         observe gen_table s0 k m qa = requested gen_table args G t) /\
+      (forall s, In s tr' -> forall k m qa t, In ((k, m, qa), t) (doc_requested c) ->
+         ~ In k (footprint doc_composites body) ->
+         observe gen_table s k m qa = requested gen_table args G t).
+Proof. exact innermost_requested_gen. Qed.
+Print Assumptions c20_innermost_wins.
+
+(* ... UNTIL an inner block of the same footprint is entered: the body may continue (b2: anything, also
+   blocks of c itself); throughout b1 the requested values stay visible for the classes without a block in b1 *)
+Theorem c20_innermost_wins_until :
+  forall c args b1 b2 G G' o tr,
+    In c (usable gen_table) ->
+    (forall k, In k (prog_classes b1) -> In k checked) ->
+    run gen_table (PWith c args (PSeq PObserve (PSeq b1 b2))) G = (G', o, tr) ->
+    (enters gen_table c args G = false /\ tr = []) \/
+    exists s0 tr1 tr2, tr = s0 :: tr1 ++ tr2 /\
+      (exists Ga oa, run gen_table b1 s0 = (Ga, oa, tr1)) /\
+      (forall k m qa t, In ((k, m, qa), t) (doc_requested c) ->
+         observe gen_table s0 k m qa = requested gen_table args G t) /\
+      (forall s, In s tr1 -> forall k m qa t, In ((k, m, qa), t) (doc_requested c) ->
+         ~ In k (footprint doc_composites b1) ->
+         observe gen_table s k m qa = requested gen_table args G t).
+Proof. exact innermost_requested_until_gen. Qed.
+Print Assumptions c20_innermost_wins_until.
+
+(* the documentation table has an entry for every usable class, and the regenerated source meets it *)
+Theorem c20_every_usable_class_sets_requested :
+  forall c, In c (usable gen_table) ->
+    enter_sets_requested gen_table doc_composites doc_caches doc_requested c = true /\ doc_requested c <> [].
+Proof. exact req_usable_nonempty. Qed.
+Print Assumptions c20_every_usable_class_sets_requested.
+
+(* what [requested] means, construct by construct (every table, arguments, outer store) *)
+Theorem c20_requested_arg_default :     (* "the argument p (default d)" *)
+  forall T args G p d,
+    requested T args G (arg_default p d) = match assoc p args with Some v => v | None => VK d end.
+Proof. exact requested_arg_default. Qed.
+Theorem c20_requested_arg_or_else :     (* "the argument p if supplied and not None, else e" *)
+  forall T args G p e,
+    requested T args G (arg_or_else p e)
+    = match assoc p args with None | Some (VK KNone) => requested T args G e | Some v => v end.
+Proof. exact requested_arg_or_else. Qed.
+Theorem c20_requested_arg :             (* the argument itself (value classes: it is mandatory) *)
+  forall T args G p, requested T args G (RVal (arg p)) = match assoc p args with Some v => v | None => VK KNone end.
+Proof. exact requested_arg. Qed.
+Theorem c20_requested_outer :           (* the value shown outside the block *)
+  forall T args G c a, requested T args G (RVal (outer c a)) = lookup_v T G c a.
+Proof. exact requested_outer. Qed.
+Theorem c20_requested_flag_on :
+  forall T args G p k t, In ((k, "on", []), t) (req_flag p k) ->
+    requested T args G t = match assoc p args with
+                           | None => VK (KBool true)
+                           | Some (VK KNone) => lookup_v T G k "_default"
+                           | Some v => v
+                           end.
+Proof. exact requested_flag_on. Qed.
+Theorem c20_requested_flag_off :
+  forall T args G p k t ton, In ((k, "off", []), t) (req_flag p k) -> In ((k, "on", []), ton) (req_flag p k) ->
+    requested T args G t = VK (KBool (negb (conc_truth (requested T args G ton)))).
+Proof. exact requested_flag_off. Qed.
+Theorem c20_requested_flag_is_default :
+  forall T args G p k t, In ((k, "is_default", []), t) (req_flag p k) ->
+    requested T args G t = match assoc p args with Some (VK KNone) => VK (KBool true) | _ => VK (KBool false) end.
+Proof. exact requested_flag_is_default. Qed.
+Print Assumptions c20_requested_arg_or_else.
+Print Assumptions c20_requested_flag_on.
+
+(* readable instance: a flag block with an explicit boolean state shows exactly that state *)
+Theorem c20_flag_block_shows_state :
+  forall c b body G G' o tr,
+    In c (usable gen_table) -> doc_requested c = req_flag "state" c ->
+    run gen_table (PWith c [("state", VK (KBool b))] (PSeq PObserve body)) G = (G', o, tr) ->
+    (enters gen_table c [("state", VK (KBool b))] G = false /\ tr = []) \/
+    exists s0 tr', tr = s0 :: tr' /\
+      observe gen_table s0 c "on" [] = VK (KBool b) /\
+      observe gen_table s0 c "off" [] = VK (KBool (negb b)) /\
+      observe gen_table s0 c "is_default" [] = VK (KBool false).
+Proof. exact flag_block_gen. Qed.
+Print Assumptions c20_flag_block_shows_state.
+Example ex_c20_debug_is_flag :
+  In "gp.debug" (usable gen_table) /\ doc_requested "gp.debug" = req_flag "state" "gp.debug".
+Proof. exact ex_debug_is_flag. Qed.
+(* non-vacuity of c20_innermost_wins: the outer block of ex_prog enters (so the right disjunct is the one
+   that holds: see ex_c20_program_runs for the values), and the table requests its 7 probe vectors *)
+Example ex_c20_innermost_hypotheses :
+  In "gp.fast_pred_var" (usable gen_table) /\
+  enters gen_table "gp.fast_pred_var" ex_outer_args (init_store gen_table) = true /\
+  In (("gp.fast_pred_var", "num_probe_vectors", []), arg_default "num_probe_vectors" (KNum 1 1))
+     (doc_requested "gp.fast_pred_var") /\
+  requested gen_table ex_outer_args (init_store gen_table) (arg_default "num_probe_vectors" (KNum 1 1)) = VK (KNum 7 1).
+Proof. exact ex_outer_enters. Qed.
+
+(* INNERMOST WINS, slot level (for EVERY class, not only those of the block): whatever a block shows at the
+   start of its body (s0) is what every later observation in its body shows, for every class that has no
+   inner block in the body *)
+Theorem c20_innermost_persists :
   forall c args body G G' o tr,
     (forall k, In k (prog_classes body) -> In k checked) ->
     run gen_table (PWith c args (PSeq PObserve body)) G = (G', o, tr) ->
@@ -97,7 +214,7 @@ Theorem c20_innermost_wins_partial :
       forall s, In s tr' -> forall k a, ~ In k (footprint doc_composites body) -> doc_caches k a = false ->
         lookup_v gen_table s k a = lookup_v gen_table s0 k a.
 Proof. exact innermost_gen. Qed.
-Print Assumptions c20_innermost_wins_partial.
+Print Assumptions c20_innermost_persists.
 
 (* FAILED HEADER: a with-statement whose header fails -- constructor or __enter__ raise for whatever
    reason: wrong arguments, an explicit raise, a warning turned into an exception by the filter in force --
